@@ -147,3 +147,56 @@ Proof.
   all: try (repeat constructor; cbn; intuition congruence).
   all: try (intros k Hk; destruct k as [|[|[|[|k]]]]; try (exfalso; apply Hk; cbn; tauto); reflexivity).
 Qed.
+
+(* ---- the whole pipeline in one statement ----------------------------------------------
+   NewEncoderFor[T] generates the schema from the Go type, marshals it into the header and
+   builds its codec from it; ReadFile reads the header, PARSES the schema text and builds its
+   own codec from the parsed schema for the same type.  For every struct type for which the
+   encoder exists, every Encode/Flush history closed by a flush, block size and compressor with
+   an inverse: the reader recovers the codec name and sync marker, the schema it parses is the
+   schema that was generated (schema generation yields normal values, and parse . print is the
+   identity on those: C14), so it decodes with the very codec the records were written with,
+   and delivers exactly the appended records, each decoding to its value's image.
+   [text]/[untext] stand for the JSON library's tree <-> bytes layer. *)
+From Coq Require Import String.
+Require Import Avro.Model.SchemaGen Avro.Model.Json Avro.Corr.Codec Avro.Proofs.PipelineP.
+Local Open Scope string_scope.
+Theorem C01_whole_pipeline : forall (text : json -> bytes) (untext : bytes -> option json),
+  (forall j, json_text_ok j = true -> untext (text j) = Some j) ->
+  forall compress decompress, (forall x, decompress (compress x) = Some x) ->
+  forall sync, len sync = 16 ->
+  forall t g sj c, encoder_for text t = Some (g, sj, c) ->
+  forall codec_name size ops bfuel fuel,
+  len sj < two63 -> len codec_name < two63 ->
+  Forall (fun r => exists v', written (classify g) c fuel (zero_of (top_type t)) r v') (recs_of ops) ->
+  Forall (group_small compress) (fst (blocks_spec size [] (ops ++ [OpFlush]))) ->
+  (length (fst (blocks_spec size [] (ops ++ [OpFlush]))) < bfuel)%nat ->
+  exists h body c',
+    read_header (concat (file_chunks compress sj codec_name sync size (ops ++ [OpFlush]))) = Some (h, body) /\
+    meta_get (h_meta h) (b "avro.codec") = Some codec_name /\ h_sync h = sync /\
+    reader_codec untext h t = Some c' /\ c' = c /\
+    read_blocks decompress (rr c' fuel (zero_of (top_type t))) (fun _ => None) bfuel sync 0 body
+      = (length (recs_of ops), FOk).
+Proof. exact whole_pipeline. Qed.
+Print Assumptions C01_whole_pipeline.
+
+(* non-vacuity: the encoder exists for a struct with a pointer, an omitempty integer, a slice of
+   maps and a wrapper-typed field, whatever the JSON text layer is *)
+Example C01_pipeline_ex : forall text : json -> bytes,
+  let t := TStruct (b "T") (b "main")
+             [GF (b "A") true (b "a") [] (TPtr TString);
+              GF (b "B") true (b "b,omitempty") [] (TInt I64);
+              GF (b "D") true (b "d") [] (TSlice (TMap TString (TInt I16)));
+              GF (b "W") true [] [] (TWrap WTime)] in
+  exists g c, encoder_for text t = Some (g, text (marshal g), c).
+Proof.
+  intros text. cbv zeta.
+  match goal with |- context [encoder_for _ ?t] =>
+    let g := eval vm_compute in (schema_for_type sreg_std t) in
+    match g with
+    | Some ?g0 =>
+      let c := eval vm_compute in (build_top g0 t) in
+      match c with Some ?c0 => exists g0, c0; apply encoder_for_defined; vm_compute; reflexivity end
+    end
+  end.
+Qed.
